@@ -8,6 +8,7 @@ Not decided here: that the draws follow the named law (statistics)."""
 import glob
 import json
 import os
+import time
 from concurrent.futures import ThreadPoolExecutor
 import vcommon as vc
 
@@ -151,6 +152,7 @@ def run(tier, seed):
     with ThreadPoolExecutor(max_workers=8) as ex:
         results = list(ex.map(lambda j: j[3](), jobs))
     _clean()
+    vc.log("C18: design models + trace-spec self-tests done at %.0fs" % (time.time() - ck.t0))
     selfres = {}
     for (kind, name, const, _f), r in zip(jobs, results):
         if kind == "model":
@@ -173,7 +175,8 @@ def run(tier, seed):
                ("exh-2to5", ["--maxtot", 3, "--mindim", 2, "--maxdim", 5, "--seeds", 2])]
     else:
         exh = [("exh-2to3-t0to8", ["--maxtot", 8, "--mindim", 2, "--maxdim", 3, "--seeds", 16])]
-        exh += [("exh-2to3-t%d" % t, ["--mintot", t, "--maxtot", t, "--mindim", 2, "--maxdim", 3, "--seeds", 16]) for t in (9, 10, 11, 12)]
+        exh += [("exh-2to3-t%d" % t, ["--mintot", t, "--maxtot", t, "--mindim", 2, "--maxdim", 3, "--seeds", 16]) for t in (9, 10)]
+        exh += [("exh-2to3-t%d" % t, ["--mintot", t, "--maxtot", t, "--mindim", 2, "--maxdim", 3, "--seeds", 4]) for t in (11, 12)]
         exh += [("exh-2to5", ["--maxtot", 4, "--mindim", 2, "--maxdim", 5, "--seeds", 2])]
     runs = [(n, ["--mode", "tables-exh"] + a, "Rcont2Trace") for n, a in exh]
     runs += [("tables-rand", ["--mode", "tables-rand", "--n", 400 if quick else 5000, "--maxtot", 200], "Rcont2Trace"),
@@ -183,15 +186,16 @@ def run(tier, seed):
         tr = os.path.join(wd, "trace-%s.ndjson" % name)
         s = vc.run_driver(exe, args, tr, timeout=3000)
         _validate(ck, tr, module, sample=2 if name in ("tables-rand", "sampling-rand") else 0)
+        vc.log("C18: %s: %s scenarios, %s events validated at %.0fs" % (name, s.get("scenarios"), s.get("events"), time.time() - ck.t0))
         ck.extra["scenarios_" + name] = s.get("scenarios", 0)
         os.remove(tr)
     ck.exhaustive = True
-    ck.rule = ("tables: every ordered pair of margin vectors (zeros included) with 2..3 rows/columns and total <= %d x 16 seeds, "
+    ck.rule = ("tables: every ordered pair of margin vectors (zeros included) with 2..3 rows/columns and total <= %s, "
                "2..5 rows/columns and total <= %d x 2 seeds, random margins to total 200 with 2..5 rows/columns in multi-generator "
                "histories (refused constructions, copies, ContingencyTableTest with 0..4 permutations); sampling: getSample for source "
                "sizes 0..12 x sample sizes 0..14 x {plain, weighted} x {with, without replacement} x 16 seeds + pickOne variants, "
                "random runs of all call kinds re-played under the same seed; non-trivial = scenario with at least one draw"
-               % ((6, 3) if quick else (12, 4)))
+               % (("6 x 16 seeds", 3) if quick else ("10 x 16 seeds, 11..12 x 4 seeds", 4)))
     ck.distinct = ck.traces
     ck.assumptions = ["TLC 1.8.0; CommunityModules Json",
                       "hook h2 (BPP_CORE_VERIF) reports the bookkeeping values rcont2 actually used; the driver only encodes them",
